@@ -46,7 +46,13 @@ def coverage(escapes):
         if st is None:
             continue
         a, b = st
-        if a in b:
+        import re as _re
+        if a == "&":
+            if _re.fullmatch(r"&#?\w+;", b):
+                covered.add(a)
+            else:
+                problems.append(f"'&' is not replaced by a character reference ({b!r})")
+        elif a in b:
             problems.append(f"replacement of {a!r} re-introduces it ({b!r})")
         else:
             covered.add(a)
